@@ -14,7 +14,8 @@ def nontrivial(line):
     if f.get("kind") in ("special",):
         return None
     try:
-        if int(f.get("M", "0")) > 8:
+        # `long`: 27..48 columns of integer cells, exact tails on the integer grid of the scores
+        if int(f.get("M", "0")) > 8 and f.get("kind") != "long":
             return None
     except ValueError:
         return None
@@ -48,7 +49,7 @@ SPEC = dict(
     release_n=30,   # release-profile replay: corpus + the first generated cases (no overflow-dependent site is left in dist.rs)
     translate=dist_skel.translate,
     ml_modules=["dist_model"],
-    n={"quick": 64, "thorough": 1000},
+    n={"quick": 72, "thorough": 1000},
     search_n={"quick": 192, "thorough": 1000},
     nontrivial=nontrivial,
     histogram=histogram,
